@@ -5,7 +5,7 @@
 (* requires the observed clock (and frame wrap) to be exactly that. "run" /   *)
 (* "haltrun" events: free-running programs over many frames (conservation of  *)
 (* T-states, one interrupt per frame).                                        *)
-EXTENDS Ula, Json, IOUtils, Sequences
+EXTENDS Ula, Json, IOUtils, Sequences, TLC
 
 Rec == ndJsonDeserialize(IOEnv.TRACE)
 
@@ -16,7 +16,10 @@ TraceInit == l = 1 /\ m = 48 /\ banks = <<>> /\ bad = 0
 PathFields == {"pc", "sp", "halted", "iff1", "iff2", "pfx", "ei", "im"}
 
 MStep(e) ==
-    LET env == [e.env EXCEPT !.int = IntActive(m, e.t0)]
+    \* (a RAM bank visible through two windows - 128K with bank 2 or 5 paged at 0xC000 - is told to the CPU model, which
+    \*  lets the bytes pushed by an interrupt acknowledge be read back through the other window within the same call)
+    LET aliasBank == IF m = 128 /\ banks[4][1] = "ram" /\ banks[4][2] \in {2, 5} THEN banks[4][2] ELSE 0
+        env == [alias |-> aliasBank] @@ [e.env EXCEPT !.int = IntActive(m, e.t0)]
         o == CHOOSE x \in Outcomes(e.pre, env) : TRUE
         endT == RunOps(m, banks, e.t0, o.ack \o o.ops)
         wantT == endT % Frame(m)
